@@ -106,9 +106,20 @@ namespace cnl {
             template<typename Destination, typename Source>
             [[nodiscard]] constexpr auto operator()(Source const& rhs) const
             {
-                return overflow_digits<Destination, polarity::negative>::value
-                             < overflow_digits<Source, polarity::negative>::value
-                    && rhs < static_cast<Source>(std::numeric_limits<Destination>::lowest());
+                constexpr auto destination_digits{overflow_digits<Destination, polarity::negative>::value};
+                constexpr auto source_digits{overflow_digits<Source, polarity::negative>::value};
+                if constexpr (destination_digits < source_digits) {
+                    return rhs < static_cast<Source>(std::numeric_limits<Destination>::lowest());
+                } else if constexpr (destination_digits == source_digits && source_digits > 0) {
+                    // a destination with as many digits can still be too small for the source's
+                    // most negative number if its own range is symmetric, e.g. elastic_integer
+                    if constexpr (has_most_negative_number<Source>::value) {
+                        if constexpr (!has_most_negative_number<Destination>::value) {
+                            return rhs < static_cast<Source>(std::numeric_limits<Destination>::lowest());
+                        }
+                    }
+                }
+                return false;
             }
         };
 
